@@ -17,7 +17,7 @@ def canon(o, mac):
         return {"rejected": "panic"}
     if o.get("dirty") or o.get("has_compile_error"):
         return {"rejected": True}
-    out = {"rejected": False}
+    out = {"rejected": False, "source_kept_as_written": o.get("passthrough_ok")}
     name, items = model.sv_items(o)
     if name == "entry_points":
         out["entry_points"] = sorted((f["name"], norm(f["sig"])) for f in items if f.get("k") == "fn")
@@ -193,9 +193,31 @@ def attr_programs(tier):
         yield ("attrs0ep", tag, "entry_points", c)
 
 
+def method_attr_programs(tier):
+    """Handlers whose own attribute lines (two forwarded `sv::attr`s, a foreign attribute and the kind annotation) are written
+    in every order, with attributed parameters: which line comes first must not matter."""
+    A = '#[sv::attr(serde(alias = "al_a"))]'
+    B = '#[sv::attr(doc = "fwd")]'
+    F = '#[allow(unused_variables)]'
+    lines = [A, B, F, "MSG"]
+    for where in ("contract", "interface"):
+        for perm in itertools.permutations(range(4)):
+            order = [lines[k] for k in perm]
+            cut = order.index("MSG")
+            above, below = tuple(order[:cut]), tuple(order[cut + 1:])
+            ms = []
+            for kind, nm in (("exec", "foo"), ("query", "get_x"), ("sudo", "sd")):
+                ms.append(Method(kind, nm, (Arg("a", "u32", ("#[serde(default)]",)), Arg("b1", "String", ("#[allow(unused)]",))), attrs=above, sv_attrs=below,
+                                 qret="u32" if kind == "query" else None))
+            if where == "contract":
+                yield ("mattr_ct", "".join(map(str, perm)), "contract", Contract(methods=(Method("instantiate", "inst", ()),) + tuple(ms)))
+            else:
+                yield ("mattr_if", "".join(map(str, perm)), "interface", Interface(name="If", module="ifc", methods=tuple(ms), custom="msg=Empty, query=Empty"))
+
+
 def run_e1(res, tier):
     recs, meta = [], {}
-    for gen in (method_programs, reply_groups, attr_programs):
+    for gen in (method_programs, reply_groups, attr_programs, method_attr_programs):
         for gid, perm, mac, obj in gen(tier):
             pid = "%s:%s" % (gid, perm)
             if pid in meta:
